@@ -288,6 +288,38 @@ def gen_tree(rng, k):
     return tree
 
 
+def nested_tree(rng, k):
+    """A directed population every run contains whatever the seed: a long file with a short one NESTED inside it (starts
+    later, ends earlier), a far later file, and timestamps in the gap after the long file's end -- the nearest file by
+    end points is the long one, which is neither the start-time neighbour before nor after the timestamp."""
+    for _ in range(200):
+        tree = gen_tree(rng, k)
+        r = RES[tree["res"]]
+        P = tree["P"]
+        cap = (P // r) if P is not None else 400
+        if tree["ends"] and cap >= 16 and not tree["has_sat"]:
+            break
+    else:
+        return None
+    tc = tree["centre"]
+    L_ = min(cap, 20)
+    spans = [(0, L_), (3, 1), (2 * L_ + 6, 1)]                       # (offset, duration) in units of the resolution
+    files, names = [], set()
+    for off, dur in spans:
+        t0 = tc + off * r
+        t1 = t0 + dur * r
+        name = own_render(tree["tokens"], of_us(t0), of_us(t1), None)
+        if name in names:
+            return None
+        names.add(name)
+        files.append({"name": name, "t0": t0, "t1": t1, "sat": None})
+    tree["files"] = files
+    tree["vanished"] = []
+    tree["queries"] = [{"label": "after-the-long-file", "t": tc + (L_ + d) * r, "filters": None, "xnames": [], "xtimes": [],
+                        "as_str": False} for d in (1, 2, 3)]
+    return tree
+
+
 def gen_filters(rng, tree):
     if not tree["has_sat"] or rng.random() < 0.5:
         return None
@@ -672,6 +704,12 @@ def run(ctx):
     ctx.prove("Props/C16.v")
     nt = ctx.n(110, 2200)
     trees = [gen_tree(ctx.rng, k) for k in range(nt)]
+    import random as _random
+    drng = _random.Random(f"C16-directed:{ctx.seed}")              # its own stream: the general stream stays as it was
+    for j in range(ctx.n(4, 24)):
+        t = nested_tree(drng, nt + j)
+        if t is not None:
+            trees.append(t)
     singles = [gen_single(ctx.rng, k) for k in range(ctx.n(12, 120))]
     records = evaluate(ctx, trees)
     nontrivial, first, classes, seen_sig = set(), {}, {}, {}
